@@ -256,12 +256,66 @@ def r2(R, m):
     R.check(len(rets) == 1 and src(rets[0].value) == "(n, labels)", "C15.R2", REL, fn.lineno, "find_ND_labels", "returns (n, labels)", "return value changed")
 
 
+def _sign_test_numbering(R, fn, L):
+    """Positive evidence, whatever the loop layout: the branch that counts a root (increments the returned counter)
+    is chosen by the SIGN of labels[i] although non-roots are tagged by negation.  The tag of a pointer to peak 0 is
+    -0 == 0, which no sign test separates from a root: every member of peak 0's group is counted as a group."""
+    rets = [r for r in ast.walk(fn) if isinstance(r, ast.Return) and isinstance(r.value, ast.Name)]
+    if len(rets) != 1:
+        return
+    cntname = rets[0].value.id
+    par = {}
+    for n_ in ast.walk(fn):
+        for c in ast.iter_child_nodes(n_):
+            par[c] = n_
+    negtag = [s_ for s_ in ast.walk(fn) if isinstance(s_, ast.Assign) and isinstance(s_.targets[0], ast.Subscript) and src(s_.targets[0].value) == L
+              and isinstance(s_.value, ast.UnaryOp) and isinstance(s_.value.op, ast.USub)] + \
+             [s_ for s_ in ast.walk(fn) if isinstance(s_, ast.AugAssign) and isinstance(s_.target, ast.Subscript) and src(s_.target.value) == L
+              and isinstance(s_.op, ast.Mult) and src(s_.value) in ("-1", "(-1)")]
+    if not negtag:
+        return
+    incs = [s_ for s_ in ast.walk(fn) if (isinstance(s_, ast.AugAssign) and isinstance(s_.op, ast.Add) and src(s_.target) == cntname)
+            or (isinstance(s_, ast.Assign) and src(s_.targets[0]) == cntname and isinstance(s_.value, ast.BinOp) and cntname in src(s_.value))]
+    for inc in incs:
+        loop, guards, cur = None, [], inc
+        while cur in par:
+            up = par[cur]
+            if isinstance(up, ast.If):
+                guards.append((up.test, cur in up.body))
+            if isinstance(up, ast.For):
+                loop = up
+                break
+            cur = up
+        if loop is None or not isinstance(loop.target, ast.Name):
+            continue
+        iv = loop.target.id
+        own = "%s[%s]" % (L, iv)
+
+        def sign_only(test, pos):
+            # True when (test taken as pos) is equivalent to own >= 0, i.e. a sign test
+            t = pyfacts.resolved_src(fn, test, 3, keep=(L, iv)).replace(" ", "")
+            if t.startswith("not") and t[3:4] in "(" + L[0]:
+                t, pos = t[3:].strip("()"), not pos
+            forms_true = ("%s>=0" % own, "0<=%s" % own, "%s>-1" % own, "-1<%s" % own)
+            forms_false = ("%s<0" % own, "0>%s" % own, "%s<=-1" % own, "-1>=%s" % own)
+            return (pos and t in forms_true) or ((not pos) and t in forms_false)
+        has_eq = any(re.search(r"(%s==%s|%s==%s)" % (re.escape(own), iv, iv, re.escape(own)),
+                               pyfacts.resolved_src(fn, t_, 3, keep=(L, iv)).replace(" ", "")) and pos for t_, pos in guards)
+        if guards and not has_eq and any(sign_only(t_, pos) for t_, pos in guards):
+            R.violation("C15.R3", REL, inc.lineno, "get_clean_labels", "%s counted under a sign test of %s" % (cntname, own),
+                        "non-roots are tagged by negation (line %d) and the tag of a pointer to peak 0 is -0 == 0: a sign test counts every "
+                        "member of peak 0's group as a group of its own (labels [0, 0] give 2 groups)" % negtag[0].lineno)
+        else:
+            R.inst("C15.R3", "counter %s incremented under %s" % (cntname, " and ".join(("" if pos else "not ") + src(t_) for t_, pos in guards) or "no guard"))
+
+
 def r3(R, m):
     R.rule("C15.R3", "get_clean_labels: sequential counting loop gives roots (labels[i] == i) the next number and negates the rest; the prange "
                      "loop writes only labels[i] under own value j < 0 and reads only labels[-j]")
     fn = m.ifunc("get_clean_labels")      # helpers inlined, counting while loops read as for loops over range()
     L = fn.args.args[0].arg                # the label array, whatever it is called
     loops = [l for l in fn.body if isinstance(l, ast.For)]
+    _sign_test_numbering(R, fn, L)
     R.shape(len(loops) == 2, "C15.R3", REL, "get_clean_labels", "the counting loop and the relabelling loop")
     cnt, rel = loops
     R.check(not is_prange(cnt) and isinstance(cnt.iter, ast.Call) and pyfacts.dotted(cnt.iter.func) == "range", "C15.R3", REL, cnt.lineno, "get_clean_labels", "counting loop is a plain range()",
